@@ -261,6 +261,8 @@ pub fn run(ctx: &Ctx) -> Report {
             2 => Just(Act::Print0),
             2 => Just(Act::Printf(vec![FEl::F(Fld::NameNoStart), FEl::E(Esc::Newline)])),
             2 => Just(Act::Printf(vec![FEl::F(Fld::Basename)])),
+            2 => Just(Act::Printf(vec![FEl::Lit("skipped".into()), FEl::E(Esc::Newline)])),
+            1 => Just(Act::Printf(vec![FEl::Lit("no newline".into())])),
             2 => prop::sample::select(vec!["a", "b"]).prop_map(|f| Act::FPrint(f.to_string())),
             1 => prop::sample::select(vec!["a", "b"]).prop_map(|f| Act::FPrint0(f.to_string())),
             1 => Just(Act::PrintFid),
